@@ -28,7 +28,7 @@ RULE = (
 ASSUMPTIONS = ["model: ids 1..0xFFFF repeating per destination; reboot flag set exactly on datagrams before the first wrap",
                "the default (multicast) destination is always addressed with remote=None, as the library itself does"]
 FLOORS = {"quick": {"datagrams_decoded": 400000, "wraps_observed": 8, "empty_sends": 1000, "full_cycle_walks": 1,
-                    "notification_wraps": 6, "notification_wraps_inside_a_datagram": 4, "announcer_path_datagrams": 1000, "destinations_checked": 12, "churn_notifications_checked": 3000,
+                    "notification_wraps": 6, "notification_wraps_inside_a_datagram": 4, "announcer_path_datagrams": 1000, "destinations_checked": 12, "churn_notifications_checked": 3000, "crowd_destinations": 4000,
                     "mesh_scenarios": 100, "mesh_session_ids_checked": 4800}}
 # system-level shards: the mesh workload of pv/mesh.py under this property's boundary monitors (reports of other monitors are dropped)
 MESH = {"want": ("wire",), "claim": ("mesh:session-id", "mesh:reboot-flag-wrong", "mesh:empty-sd-message"),
@@ -114,6 +114,16 @@ def walk_direct(ctx, spec, rng):
     mc_first = rng.random() < 0.5
 
     def body():
+        if spec.get("crowd"):
+            # a few messages to every regular destination, then one message each to very many others (all first contacts),
+            # then the regular walk goes on: every destination still has its own counter
+            for d in dsts:
+                for _ in range(5):
+                    prot.send_sd(e, remote=d)
+                    counts[d] += 1
+            for i in range(spec["crowd"]):
+                prot.send_sd(e, remote=(f"10.8.{i >> 8 & 255}.{i & 255}", 30490) if i % 3 else (f"2001:db8:8::{i + 1:x}", 30490, 0, 0))
+            ctx.count("crowd_destinations", spec["crowd"])
         while any(counts[d] < targets[d] for d in dsts):
             wrapped = max(counts.values()) > 0xFFFF + 5
             open_ = [d for d in dsts if counts[d] < targets[d] and not (late is not None and d == late and not wrapped)]
@@ -421,6 +431,7 @@ def shards(tier, seed):
     for i in range(k):
         out.append(dict(shard=1 + i, seed=seed, mode="direct", ndst=3 + i % 3,
                         per_dst=(65535 + 300) if tier == "quick" else (2 * 65535 + 300)))
+    out.append(dict(shard=19, seed=seed, mode="direct", ndst=2, per_dst=300, crowd=4500 if tier == "quick" else 70000))
     out.append(dict(shard=20, seed=seed, mode="announcer", collect=0, n=3000))
     out.append(dict(shard=21, seed=seed, mode="announcer", collect=2.0 ** -8, n=6000))
     # the wrap must also fall inside a multi-message datagram: 65535 is a multiple of 3 but not of 2 or 4, so with 2 or
